@@ -21,7 +21,7 @@ BUDGET = {
 TABLE = {
     "gssv": {"nprocs.zero": 1, "nprocs.neg": 1, "A.nonsquare": 2, "A.stype": 2, "A.dtype": 2, "A.mtype": 2, "B.negcol": 7, "B.lda": 7},
     "gssvx": {"nprocs.zero": 1, "opt.fact": 2, "opt.trans": 2, "opt.refact": 2, "opt.usepr": 2, "opt.lwork": 2, "A.nonsquare": 3, "A.stype": 3, "A.dtype": 3, "A.mtype": 3,
-              "equed.bad": 6, "R.nonpos": 7, "C.nonpos": 8, "B.lda": 11, "B.stype": 11, "B.dtype": 11, "B.negcol": 11, "X.lda": 12, "X.ncol": 12, "X.stype": 12, "X.dtype": 12},
+              "equed.bad": 6, "R.nonpos": 7, "C.nonpos": 8, "RC.nonpos": 7, "B.lda": 11, "B.stype": 11, "B.dtype": 11, "B.negcol": 11, "X.lda": 12, "X.ncol": 12, "X.stype": 12, "X.dtype": 12},
     "gstrs": {"trans.bad": 1, "L.nonsquare": 2, "U.nonsquare": 3, "B.lda": 6},
     "gsrfs": {"trans.bad": 1, "A.nonsquare": 2, "A.stype_nr": 2, "A.dtype": 2, "L.nonsquare": 3, "L.stype": 3, "L.mtype": 3, "U.nonsquare": 4, "U.dtype": 4, "U.mtype": 4, "B.lda": 10, "B.stype": 10, "X.lda": 11, "X.dtype": 11},
     "gscon": {"norm.bad": 1, "L.nonsquare": 2, "L.stype": 2, "L.dtype": 2, "U.nonsquare": 3, "U.mtype": 3, "U.stype": 3},
@@ -29,7 +29,7 @@ TABLE = {
     "sp_trsv": {"uplo.bad": 1, "tr.bad": 2, "diag.bad": 3, "L.nonsquare": 4, "U.nonsquare": 5},
     "sp_gemv": {"tr.bad": 1, "A.negdim": 3, "incx.zero": 5, "incy.zero": 8},
 }
-CONFLICT = [("equed.bad", "R.nonpos"), ("equed.bad", "C.nonpos"), ("R.nonpos", "C.nonpos"), ("opt.fact", "equed.bad"), ("opt.fact", "R.nonpos"), ("opt.fact", "C.nonpos"),
+CONFLICT = [("RC.nonpos", "R.nonpos"), ("RC.nonpos", "C.nonpos"), ("RC.nonpos", "equed.bad"), ("RC.nonpos", "opt.fact"), ("equed.bad", "R.nonpos"), ("equed.bad", "C.nonpos"), ("R.nonpos", "C.nonpos"), ("opt.fact", "equed.bad"), ("opt.fact", "R.nonpos"), ("opt.fact", "C.nonpos"),
             ("A.nonsquare", "A.negdim"), ("B.negcol", "X.ncol")]
 
 
